@@ -33,12 +33,12 @@ end TfelVerif.C28
 
 /-- conjunction of component equalities between traced definitions: unfold, then `ring` -/
 macro "axes_eq" : tactic =>
-  `(tactic| ((repeat' apply And.intro) <;> (simp only [gen_simp]) <;> (first | done | ring)))
+  `(tactic| ((repeat' apply And.intro) <;> (simp only [gen_simp]) <;> (first | done | ring1)))
 
 /-- same, for the PIPE plane hypotheses where ν32 = ν23 E3/E2 is formed by the code -/
 macro "stiff_eq" h2:ident h3:ident : tactic =>
   `(tactic| ((repeat' apply And.intro) <;> (simp only [gen_simp]) <;>
-      (first | done | ring | (simp only [TfelVerif.C28.pipe_nu32 _ _ _ $h2 $h3]; ring))))
+      (first | done | ring1 | (simp only [TfelVerif.C28.pipe_nu32 _ _ _ $h2 $h3]; ring1))))
 
 /-- `C · S = 1` for the traced 3D stiffness, given the traced determinant `hd : … ≠ 0` -/
 macro "stiff3d" hd:ident : tactic =>
@@ -47,4 +47,4 @@ macro "stiff3d" hd:ident : tactic =>
       generalize_ne $hd => e he
       have h1 : e * e⁻¹ = 1 := mul_inv_cancel₀ $hd
       repeat' apply And.intro
-      all_goals first | ring | linear_combination (e⁻¹) * he + h1))
+      all_goals first | trivial | ring1 | linear_combination (e⁻¹) * he + h1))
